@@ -1,6 +1,7 @@
 // C02/C03/C04/C05 harness: Circuit::legalize and Circuit::placeDetailed (with a recording callback) from /repo
 //   detailed gen rand SEED COUNT MODE     MODE bits: 2 = no turned, 16 = no polarity, 4 = magnitude stream
 //   detailed run < cases
+//   (net weight code in <nets>: w2 >= 0 = weight w2/2, 0 included; w2 < 0 = weight 2^w2, see cgen.hpp)
 // case: "DP <rows> <cells> <nets> effort custom nbPasses lsNeigh lsRows shiftRows shiftMax reordRows reordMax"
 // result: "LEG <outcome><placement> ; hpwl || CB<placement> ; hpwl || ... || END <outcome><placement> ; hpwl ; frame"
 //   frame = 1 when nothing but x/y/orientation of movable cells differs from the input circuit (checked field by field), else 0
@@ -24,6 +25,8 @@ int main(int argc, char **argv) {
     SplitMix g(strtoull(argv[3], nullptr, 10)); long long count = atoll(argv[4]); int m = argc > 5 ? atoi(argv[5]) : 0;
     for (long long it = 0; it < count; ++it) {
       GenOpts o; o.nets = true; o.utilLo = 20; o.utilHi = 95; o.maxCells = 14;
+      // 2 circuits in 3: nets of weight 0 and of tiny weight (2^-1 .. 2^-140) among the others; Circuit::hpwl() counts every net
+      if (it % 3) { o.zeroWeightPct = 25; o.tinyWeightPct = 10; }
       if (m & 2) o.turned = false; if (m & 16) o.polarity = false; if (m & 4) o.scale = 1LL << g.uni(4, 14);
       TCircuit t = genCircuit(g, o);
       int custom = g.coin(60);
